@@ -498,10 +498,13 @@ func runC16(c *Ctx) {
 			}
 			c.Check(K(f.Name, "order preserved"), app.Pos(), okOrder, "peers are appended in the order ClosestN lists their keys", "appended value is not the peer of the iterated ClosestN key")
 			// appended after the address loop, and rejections only from inside it behind the limit test
+			// the loop over the peer's addresses (it may live in a helper read in place)
 			var addrLoop *ast.RangeStmt
-			ast.Inspect(keyLoop.Body, func(n ast.Node) bool {
+			f.Walk(func(n ast.Node) bool {
 				if rg, ok := n.(*ast.RangeStmt); ok && addrLoop == nil && n != ast.Node(keyLoop) {
-					addrLoop = rg
+					if tv, ok := info.Types[rg.X]; ok && eng.TypeKey(tv.Type) == "[]github.com/multiformats/go-multiaddr.Multiaddr" {
+						addrLoop = rg
+					}
 				}
 				return true
 			})
@@ -514,8 +517,20 @@ func runC16(c *Ctx) {
 			// the limit test: over-representation means `not already counted && size >= limit`
 			nrej := 0
 			ast.Inspect(addrLoop, func(n ast.Node) bool {
-				br, ok := n.(*ast.BranchStmt)
-				if !ok || br.Tok != token.CONTINUE || br.Label == nil {
+				// a rejection leaves the address loop for the next key: `continue <key loop>`, or
+				// `return false` when the loop lives in a helper read in place
+				var br ast.Stmt
+				switch x := n.(type) {
+				case *ast.BranchStmt:
+					if x.Tok == token.CONTINUE && x.Label != nil {
+						br = x
+					}
+				case *ast.ReturnStmt:
+					if !eng.Contains(f.Body, x) && len(x.Results) == 1 && isBoolConst(info, x.Results[0], false) {
+						br = x
+					}
+				}
+				if br == nil {
 					return true
 				}
 				nrej++
